@@ -5,7 +5,7 @@ SO(i, c, f, o, w) == [input |-> i, channel |-> c, format |-> f, own |-> o, out |
 \* every situation of one invocation (C19)
 \* "escape": the file defines a report whose file name leads out of the output directory ("../x"); "badname": one whose
 \* file name the library refuses -- whatever other reports the file defines, the command emits its own report and leaves no trace
-Owns == {"none", "json", "csv", "both", "jsonfirst", "escape", "badname"}
+Owns == {"none", "json", "csv", "both", "jsonfirst", "escape", "badname", "subdir"}      \* "subdir": own reports named "dir/file"
 Raw == {S(i, c, f, o) : i \in {"missing", "directory", "empty", "blank", "syntax", "model", "ok"},
                         c \in {"path", "dash", "stdin"}, f \in {"json", "csv"}, o \in Owns}
 \* a missing path / a directory cannot arrive over stdin; a whitespace-only FILE is not "empty input" for the
@@ -14,12 +14,13 @@ AllSits == {s \in Raw : /\ ~(s.input \in {"missing", "directory"} /\ s.channel \
                         /\ ~(s.input = "blank" /\ s.channel = "path")}
            \cup {SO(i, c, f, o, w) : i \in {"ok", "syntax"}, c \in {"path", "stdin"}, f \in {"json", "csv"}, o \in {"none", "both"},
                                       w \in {"newfile", "exists", "force", "baddir", "brokenpipe"}}
+           \* "partial": a project in which some tasks cannot be scheduled (no allocation, a dependency loop): success, empty dates;
            \* input that is not UTF-8, CRLF line ends, a report definition the library refuses by calling sys.exit
-           \cup {S(i, c, f, o) : i \in {"undecodable", "crlf"}, c \in {"path", "dash", "stdin"}, f \in {"json", "csv"}, o \in {"none", "both"}}
+           \cup {S(i, c, f, o) : i \in {"undecodable", "crlf", "partial"}, c \in {"path", "dash", "stdin"}, f \in {"json", "csv"}, o \in {"none", "both"}}
            \cup {SO(i, "path", "json", "none", w) : i \in {"undecodable"}, w \in {"newfile", "brokenpipe"}}
 \* three concurrent processes (C20): a representative mix incl. failing ones
 ConcSits == {S("ok", "path", "json", "json"), S("ok", "stdin", "json", "none"), S("syntax", "path", "csv", "both"),
              S("empty", "stdin", "json", "none"), SO("ok", "path", "csv", "csv", "exists"),
              S("undecodable", "path", "json", "none"), S("ok", "stdin", "csv", "badname"), SO("ok", "path", "json", "none", "brokenpipe"),
-             S("ok", "path", "json", "escape")}
+             S("ok", "path", "json", "escape"), S("partial", "stdin", "json", "subdir")}
 =======================================================================================
